@@ -222,6 +222,27 @@ def oracle(chk, case, B, tag, ri, phi, der):
     if not np.array_equal(g0, der):
         chk.fail('C13:output-history', 'the result depends on the previous contents of the output array', tag,
                  actual=float(np.abs(g0 - der).max()))
+    # memory layouts and element types the caller may use: a strided output (a plane of a table stored in another order), a
+    # Fortran-ordered potential, an integer-valued and a single-precision potential; the output is float64 and must be what the
+    # same values give as float64 C arrays
+    big = np.full((nz, 2 * nq), 5.5)
+    dv = big[:, ::2]
+    pg.parallel_gradient(phi, ri, dv)
+    if not np.array_equal(dv, der) or not (big[:, 1::2] == 5.5).all():
+        chk.fail('C13:strided-output', 'a non-contiguous output array is not filled (or memory next to it is touched)', tag,
+                 actual=float(np.abs(dv - der).max()))
+    g1 = np.empty((nz, nq))
+    pg.parallel_gradient(np.asfortranarray(phi), ri, g1)
+    if not np.array_equal(g1, der):
+        chk.fail('C13:fortran-input', 'a Fortran-ordered potential gives another result than the same values in C order', tag,
+                 actual=float(np.abs(g1 - der).max()))
+    for nm, arr in (('int64', rng.randint(-9, 10, size=(nz, nq)).astype(np.int64)), ('float32', phi.astype(np.float32))):
+        ga, gb = np.empty((nz, nq)), np.empty((nz, nq))
+        pg.parallel_gradient(arr, ri, ga)
+        pg.parallel_gradient(arr.astype(np.float64), ri, gb)
+        if not (np.abs(ga - gb) <= 2.0 ** -40 * max(1.0, float(np.abs(arr).max())) * unit).all():
+            chk.fail('C13:input-dtype', 'a potential given as %s gives another result than the same values as float64' % nm, dict(tag, dtype=nm),
+                     actual=float(np.abs(ga - gb).max()))
     # linearity
     a_, b_ = float(rng.uniform(-2, 2)), float(rng.uniform(-2, 2))
     p2 = rng.uniform(-1, 1, size=(nz, nq))
